@@ -195,7 +195,24 @@ impl Elem for Val<Tk24> {
     }
 }
 
-pub const ETYPES: [&str; 5] = ["u8", "u64", "String", "Tk0", "Tk24"];
+/// nested lists: the element `v` is the (immutable) list `[v; 1 + v % 3]`, so
+/// element equality is equality of the inner lists' contents and clone / drop
+/// are handle clone / drop of the inner `Arc`
+impl Elem for List<u64> {
+    const NAME: &'static str = "List";
+    const ROTO: &'static str = "List[u64]";
+    const TRACKED: bool = false;
+    fn make(v: u64) -> Self {
+        List::from(vec![v; 1 + (v % 3) as usize])
+    }
+    fn val(&self) -> u64 {
+        let v = self.get(0).expect("inner list");
+        assert_eq!(self.len(), 1 + (v % 3) as usize, "inner list length");
+        v
+    }
+}
+
+pub const ETYPES: [&str; 6] = ["u8", "u64", "String", "Tk0", "Tk24", "List"];
 
 // ---------------------------------------------------------------- operations
 
@@ -750,6 +767,92 @@ where
     (recs, failed)
 }
 
+/// first violation key of running `case` (on a scratch report)
+fn first_key<T: Elem>(idx: u64, case: &Case, funcs: &mut Option<script::Funcs<T>>) -> Option<(String, Option<usize>)>
+where
+    T::Transformed: PartialEq,
+{
+    let mut tmp = Report::default();
+    let _ = run_case::<T>(idx, case, funcs, &mut tmp);
+    let v = tmp.impl_violations.first()?;
+    Some((
+        v["key"].as_str().unwrap_or("").to_string(),
+        v["input"]["step"].as_u64().map(|k| k as usize),
+    ))
+}
+
+/// Run a case; when it violates the property without crashing, report the
+/// smallest history found by cutting after the failing step and greedily
+/// deleting chunks of operations (same violation key required).
+fn run_case_shrunk<T: Elem>(
+    idx: u64,
+    case: &Case,
+    funcs: &mut Option<script::Funcs<T>>,
+    rep: &mut Report,
+) -> (Vec<Rec>, bool)
+where
+    T::Transformed: PartialEq,
+{
+    let mut tmp = Report::default();
+    let (recs, failed) = run_case::<T>(idx, case, funcs, &mut tmp);
+    if !failed || case.ops.len() <= 4 {
+        for v in tmp.impl_violations {
+            if rep.impl_violations.len() < 200 {
+                rep.impl_violations.push(v);
+            }
+        }
+        return (recs, failed);
+    }
+    let key = tmp.impl_violations[0]["key"].as_str().unwrap_or("").to_string();
+    let mut cur = case.clone();
+    if let Some(k) = tmp.impl_violations[0]["input"]["step"].as_u64() {
+        cur.ops.truncate(k as usize + 1);
+    }
+    let mut budget = 400;
+    let mut chunk = (cur.ops.len() / 2).max(1);
+    loop {
+        let mut i = 0;
+        while i + chunk < cur.ops.len() && budget > 0 {
+            let mut cand = cur.clone();
+            cand.ops.drain(i..i + chunk);
+            budget -= 1;
+            let same = cand.valid()
+                && matches!(first_key::<T>(idx, &cand, funcs), Some((k, _)) if k == key);
+            if same {
+                cur = cand;
+            } else {
+                i += chunk;
+            }
+        }
+        if chunk == 1 || budget == 0 {
+            break;
+        }
+        chunk /= 2;
+    }
+    // the violation as the small history shows it (cut again after its failing step)
+    if let Some((k, Some(step))) = first_key::<T>(idx, &cur, funcs) {
+        if k == key {
+            cur.ops.truncate(step + 1);
+        }
+    }
+    let mut fin = Report::default();
+    let _ = run_case::<T>(idx, &cur, funcs, &mut fin);
+    let mut pushed = false;
+    for mut v in fin.impl_violations {
+        if v["key"].as_str() == Some(&key) && !pushed {
+            v["input"]["shrunk_from_ops"] = json!(case.ops.len());
+            rep.impl_violations.push(v);
+            pushed = true;
+        }
+    }
+    if !pushed {
+        for v in tmp.impl_violations {
+            rep.impl_violations.push(v);
+        }
+    }
+    (recs, failed)
+}
+
 /// the property: results and contents as a shared vector gives them, tokens balanced
 fn disagree(got: &Rec, want: &Rec, op: &Op) -> Option<String> {
     if !matches!(op, Op::Capacity(_)) && got.out != want.out {
@@ -1153,11 +1256,12 @@ struct Runner {
     f_str: Option<script::Funcs<RotoString>>,
     f_tk0: Option<script::Funcs<Val<Tk0>>>,
     f_tk24: Option<script::Funcs<Val<Tk24>>>,
+    f_list: Option<script::Funcs<List<u64>>>,
 }
 
 impl Runner {
     fn new() -> Self {
-        Runner { f_u8: None, f_u64: None, f_str: None, f_tk0: None, f_tk24: None }
+        Runner { f_u8: None, f_u64: None, f_str: None, f_tk0: None, f_tk24: None, f_list: None }
     }
     fn run(&mut self, idx: u64, case: &Case, rep: &mut Report) -> (usize, Vec<Rec>, bool) {
         let needs_script = case.ops.iter().any(|(_, v)| *v == Via::Script);
@@ -1166,7 +1270,7 @@ impl Runner {
                 if needs_script && $f.is_none() {
                     *$f = Some(script::compile::<$t>());
                 }
-                let (recs, failed) = run_case::<$t>(idx, case, $f, rep);
+                let (recs, failed) = run_case_shrunk::<$t>(idx, case, $f, rep);
                 (<$t as Elem>::size(), recs, failed)
             }};
         }
@@ -1176,6 +1280,7 @@ impl Runner {
             "String" => go!(RotoString, &mut self.f_str),
             "Tk0" => go!(Val<Tk0>, &mut self.f_tk0),
             "Tk24" => go!(Val<Tk24>, &mut self.f_tk24),
+            "List" => go!(List<u64>, &mut self.f_list),
             other => panic!("element type {other}"),
         }
     }
@@ -1338,6 +1443,66 @@ fn worker_one(etype: &str, ops: &str) {
     rep.emit();
 }
 
+// ---------------------------------------------------------------- nested lists with mutable inner lists
+
+/// `worker nested`: fixed scenarios in which the elements of a `List<List<u64>>`
+/// are themselves shared, growing lists (outside the flat model: checked
+/// against values written out here). Includes the typed `==` / `contains` of
+/// distinct inner lists — the pinned tree's defect, one level down.
+fn worker_nested() {
+    start_watchdog();
+    let mut rep = Report::default();
+    println!("START 0");
+    let _ = std::io::stdout().flush();
+    OP_STARTED_MS.store(now_ms(), Ordering::SeqCst);
+    let mut check = |name: &str, ok: bool, detail: String| {
+        rep.evaluations += 1;
+        rep.class(format!("nested/{name}"));
+        if !ok {
+            rep.violation(
+                &format!("nested lists: {name}: {detail}"),
+                &format!("nested:{name}"),
+                json!({"scenario": name}),
+            );
+        }
+    };
+    let vv = |o: &List<List<u64>>| -> Vec<Vec<u64>> { o.to_vec().iter().map(|l| l.to_vec()).collect() };
+    {
+        let inner = List::<u64>::from(vec![1, 2]);
+        let outer = List::<List<u64>>::new();
+        outer.push(inner.clone());
+        inner.push(3);
+        check("element-aliases-pushed-list", vv(&outer) == vec![vec![1, 2, 3]], format!("{:?}", vv(&outer)));
+        let other = List::<u64>::from(vec![1, 2, 3]);
+        check("contains-by-contents", outer.contains(&other), "contains(&[1,2,3]) = false".into());
+        check("index-by-contents", outer.index(&other) == Some(0), format!("{:?}", outer.index(&other)));
+        check("contains-miss", !outer.contains(&List::from(vec![1, 2])), "contains(&[1,2]) = true".into());
+        let outer2 = outer.concat(&outer);
+        outer2.get(1).expect("second element").push(4);
+        check("concat-shares-inner", inner.to_vec() == vec![1, 2, 3, 4] && vv(&outer2) == vec![vec![1, 2, 3, 4]; 2],
+            format!("{:?} {:?}", inner.to_vec(), vv(&outer2)));
+        check("eq-different-length", outer != outer2, "[x] == [x, x]".into());
+        let o3 = List::<List<u64>>::from(vec![List::from(vec![1, 2, 3, 4])]);
+        check("eq-by-contents-recursive", outer == o3 && o3 == outer, "[[1,2,3,4]] != [[1,2,3,4]]".into());
+        o3.get(0).expect("element").push(5);
+        check("eq-after-inner-push", outer != o3, "still equal after an inner push".into());
+        outer.swap(0, 0);
+        outer2.swap(0, 1);
+        check("swap-keeps-sharing", vv(&outer2) == vec![vec![1, 2, 3, 4]; 2], format!("{:?}", vv(&outer2)));
+        drop(outer);
+        drop(outer2);
+        check("inner-survives-outer", inner.to_vec() == vec![1, 2, 3, 4] && inner.len() == 4, format!("{:?}", inner.to_vec()));
+    }
+    if script::AVAILABLE {
+        let r = script::nested_probe();
+        for (name, ok, detail) in r {
+            check(name, ok, detail);
+        }
+    }
+    OP_STARTED_MS.store(0, Ordering::SeqCst);
+    rep.emit();
+}
+
 // ---------------------------------------------------------------- parent
 
 fn hang_violation(rep: &mut Report, case: &Case, op_index: Option<usize>, ended: &Ended) {
@@ -1417,6 +1582,7 @@ fn main() {
                 args[6].parse().unwrap(),
             ),
             Some("one") => worker_one(&args[3], &args[4]),
+            Some("nested") => worker_nested(),
             _ => std::process::exit(64),
         },
         Some("run") => {
@@ -1436,6 +1602,19 @@ fn main() {
                 }));
             }
             let mut rep = Report::default();
+            {
+                let (ended, out) = run_worker_keep_stdout(&["nested"], Duration::from_secs(120));
+                if let Some(v) = Report::parse_stdout(&out) {
+                    rep.merge_json(&v);
+                }
+                if !matches!(ended, Ended::Exit(0, _)) {
+                    rep.violation(
+                        &format!("nested-list scenarios did not finish: {ended:?}"),
+                        "nested:hang-or-crash",
+                        json!({"scenario": "all"}),
+                    );
+                }
+            }
             for h in handles {
                 let r = h.join().expect("range thread");
                 let v = json!({
@@ -1458,6 +1637,23 @@ fn main() {
         Some("replay") => {
             let v: serde_json::Value = serde_json::from_str(&args[2]).expect("json");
             let c = v.get("case").unwrap_or(&v);
+            if c.get("scenario").is_some() {
+                // a nested-list scenario: run them all again, crash-isolated
+                let mut rep = Report::default();
+                let (ended, out) = run_worker_keep_stdout(&["nested"], Duration::from_secs(120));
+                if let Some(v) = Report::parse_stdout(&out) {
+                    rep.merge_json(&v);
+                }
+                if !matches!(ended, Ended::Exit(0, _)) {
+                    rep.violation(
+                        &format!("nested-list scenarios did not finish: {ended:?}"),
+                        "nested:hang-or-crash",
+                        json!({"scenario": "all"}),
+                    );
+                }
+                rep.emit();
+                return;
+            }
             let etype = c["etype"].as_str().expect("etype").to_string();
             let ops = c["ops"].as_str().expect("ops").to_string();
             let mut rep = Report::default();
